@@ -1402,3 +1402,9 @@ mod tests {
         assert!(frontend.check_device_state().is_ok());
     }
 }
+
+// Verification harnesses (Kani); the sources live outside this repository.
+#[cfg(feature = "verif")]
+mod verif {
+    include!(concat!(env!("VHOST_VERIF_DIR"), "/harness/vu_frontend.rs"));
+}
